@@ -12,6 +12,7 @@ import (
 type Ctx struct {
 	mu       sync.Mutex
 	parent   *Ctx
+	up       context.Context // the parent as given (value lookups)
 	done     chan struct{}
 	err      error
 	children []*Ctx
@@ -33,7 +34,44 @@ func (c *Ctx) Err() error {
 	return c.err
 }
 
-func (c *Ctx) Value(key interface{}) interface{} { return nil }
+func (c *Ctx) Value(key interface{}) interface{} {
+	if c.up != nil {
+		return c.up.Value(key)
+	}
+	return nil
+}
+
+// valueCtx carries one key/value pair; cancellation is its parent's.
+type valueCtx struct {
+	context.Context
+	key, val interface{}
+}
+
+func (v *valueCtx) Value(key interface{}) interface{} {
+	if key == v.key {
+		return v.val
+	}
+	return v.Context.Value(key)
+}
+
+func CtxWithValue(parent context.Context, key, val interface{}) context.Context {
+	return &valueCtx{Context: parent, key: key, val: val}
+}
+
+// baseOf finds the cancellable context behind value wrappers.
+func baseOf(c context.Context) *Ctx {
+	for k := 0; k < 64; k++ {
+		switch x := c.(type) {
+		case *Ctx:
+			return x
+		case *valueCtx:
+			c = x.Context
+		default:
+			return nil
+		}
+	}
+	return nil
+}
 
 func (c *Ctx) cancel(err error) {
 	c.mu.Lock()
@@ -52,8 +90,8 @@ func (c *Ctx) cancel(err error) {
 }
 
 func newChild(parent context.Context) *Ctx {
-	c := &Ctx{done: make(chan struct{})}
-	if p, ok := parent.(*Ctx); ok && p != nil {
+	c := &Ctx{done: make(chan struct{}), up: parent}
+	if p := baseOf(parent); p != nil {
 		c.parent = p
 		if p.done != nil {
 			p.mu.Lock()
@@ -75,6 +113,44 @@ func CtxWithCancel(parent context.Context) (context.Context, context.CancelFunc)
 	return c, func() { c.cancel(context.Canceled) }
 }
 
+// CtxWithTimeout: the deadline elapses on VIRTUAL time (time.After under the
+// interpreter fires only when no thread can run and no harness thread waits for
+// quiescence), i.e. exactly when nothing else could happen any more.
 func CtxWithTimeout(parent context.Context, d time.Duration) (context.Context, context.CancelFunc) {
-	return CtxWithCancel(parent)
+	c := newChild(parent)
+	go func() {
+		select {
+		case <-time.After(d):
+			c.cancel(context.DeadlineExceeded)
+		case <-c.done:
+		}
+	}()
+	return c, func() { c.cancel(context.Canceled) }
+}
+
+func CtxWithDeadline(parent context.Context, t time.Time) (context.Context, context.CancelFunc) {
+	return CtxWithTimeout(parent, time.Second)
+}
+
+func CtxWithoutCancel(parent context.Context) context.Context {
+	return &valueCtx{Context: background, key: &background, val: nil}
+}
+
+func CtxCause(c context.Context) error { return c.Err() }
+
+func CtxAfterFunc(c context.Context, f func()) func() bool {
+	stopped := make(chan struct{})
+	var once sync.Once
+	go func() {
+		select {
+		case <-c.Done():
+			f()
+		case <-stopped:
+		}
+	}()
+	return func() bool {
+		ran := true
+		once.Do(func() { close(stopped); ran = c.Err() == nil })
+		return ran
+	}
 }
